@@ -136,6 +136,8 @@ class GenChart:
                 par = fns[ch.parent[i]] if ch.parent[i] != 0 else chart.top
                 if e.signal == signals.ENTRY_SIGNAL and ch.entryh[i]:
                     status = return_status.HANDLED
+                elif e.signal == signals.EXIT_SIGNAL and i in getattr(ch, "exit_none", ()):
+                    return None             # the exit clause forgot its `return return_status.HANDLED`
                 elif e.signal == signals.EXIT_SIGNAL and ch.exith[i]:
                     status = return_status.HANDLED
                 elif e.signal == signals.INIT_SIGNAL and (ch.init.get(i) is not None or ch.inith[i]):
@@ -148,6 +150,9 @@ class GenChart:
                     if r[0] == "T":
                         status = chart.trans(fns[r[1]])
                     elif r[0] == "H":
+                        if len(r) > 1 and r[1]:
+                            # a transition that is swallowed: `chart.trans(X)` ... then the handler decides to stay: HANDLED
+                            chart.trans(fns[r[1]])
                         status = return_status.HANDLED
                     elif r[0] == "U":
                         if len(r) > 1 and r[1]:
@@ -208,7 +213,7 @@ def gen_chart(rng, nmax=14, nsig=3, malformed=False, flags=True):
             if r < 0.35:
                 c.react[i][s] = ("T", rng.randrange(1, n + 1))
             elif r < 0.45:
-                c.react[i][s] = ("H",)
+                c.react[i][s] = ("H", rng.randrange(1, n + 1)) if rng.random() < 0.3 else ("H",)
             elif r < 0.57:
                 # declines (closed guard); in a third of the cases after having set up a transition, i.e. with temp.fun moved
                 c.react[i][s] = ("U", rng.randrange(1, n + 1)) if rng.random() < 0.33 else ("U",)
